@@ -525,6 +525,9 @@ def rule_sentinel(m, rep, count=True):
            'cancel() is called once, after run() returned normally, never on the unwind path' if ok2 else
            'cancel() is misplaced (before run, on the unwind path, or missing): a panic would not respawn the worker / a normal exit would')
     drops_n = [bi for bi in normal if b.blocks[bi]['term']['k'] == 'drop' and type_head(b.blocks[bi]['term']['ty']) == S]
+    # an explicit `drop(sentinel)` is a drop
+    drops_n += [bi for bi in normal if b.blocks[bi]['term']['k'] == 'call' and callee_is(b.blocks[bi]['term'], 'core::mem::drop') and
+                any(type_head(a_) == S for a_ in b.blocks[bi]['term'].get('callee_args', []))]
     drops_u = [bi for bi in unw if b.blocks[bi]['term']['k'] == 'drop' and type_head(b.blocks[bi]['term']['ty']) == S]
     forget = [bi for bi, t in b.calls() if callee_is(t, 'core::mem::forget', 'ManuallyDrop::new')]
     if not drops_n and cancel.path in by_value:
